@@ -912,16 +912,17 @@ def rpdac_phase2(case, impl_lines):
         src = case[5][k]
         if len(t) >= 7 and t[1] == "RD":
             d = dict(x.split("=", 1) for x in t[2:])
-            ops.append(["rdchk", strs, src[1] if len(src) > 1 else "-", d.get("t", "0"), d.get("rules", "-"), d.get("seqs", "-"), d.get("loc", "-"), d.get("abs", "-")])
+            ops.append(["rdchk", strs, src[1] if len(src) > 1 else "-", src[2] if len(src) > 2 else "-", d.get("t", "0"), d.get("rules", "-"),
+                        d.get("seqs", "-"), d.get("loc", "-"), d.get("abs", "-"), d.get("pre", "-")])
             k += 1
         elif len(t) >= 2 and t[1] == "RQ":
             ops.append(["rdskip"])
             k += 1
         elif not l.startswith("FAULT"):
-            ops.append(["rdchk", strs, "-", "0", "-", "-", "-", "-"])
+            ops.append(["rdchk", strs, "-", "-", "0", "-", "-", "-", "-", "-"])
             k += 1
     while len(ops) < len(case[5]):
-        ops.append(["rdchk", strs, "-", "0", "-", "-", "-", "-"])
+        ops.append(["rdchk", strs, "-", "-", "0", "-", "-", "-", "-", "-"])
     return ops
 
 
@@ -933,7 +934,9 @@ def rpdac_cases(tier, rng, k):
             continue        # the Lean validator expands every sequence: keep the exported structures moderate
         qs = [q for q in gen.queries_members_and_neighbours(r, S, 12) if q not in set(S)][:16]
         qh = ",".join(hx(q) for q in qs) or "-"
-        cases.append(("rq_%s" % name, "rpdac", "RPDAC", {}, S, [["rd", qh], ["reload"], ["rd", qh]]))
+        ps = [p for p in gen.prefixes_of(r, S, 14) if p][:20]
+        ph = ",".join(hx(p) for p in ps) or "-"
+        cases.append(("rq_%s" % name, "rpdac", "RPDAC", {}, S, [["rd", qh, ph], ["reload"], ["rd", qh, ph]]))
     return cases
 
 
